@@ -16,7 +16,8 @@ MIN_COUNTERS = dict(quick={'moments_asserted': 3000, 'slots_asserted': 10000, 'c
                            'short_sequence_cases': 300, 'complex_ratio_cases': 800,
                            'object_reused_after_other_length': 2500},
                     thorough={'moments_asserted': 100000, 'slots_asserted': 500000})
-RULE = ('step_ratio log-uniform in (1.05, 100], 30 % complex r*exp(i theta); spacing 1..4, order 1..8, '
+RULE = ('Integral ratios also as int / numpy integer / 0-d integer array; in half of the cases the extrapolator object has served a sequence of another length before. ' 
+        'step_ratio log-uniform in (1.05, 100], 30 % complex r*exp(i theta); spacing 1..4, order 1..8, '
         'num_terms 0..5, N 1..20, 1-d or 1..4 columns; L and a_j over 6 decades; sequences generated in exact '
         'Q / Q(i) arithmetic and rounded once. distinct non-trivial = (complex?, spacing, order, terms used >= 1, N) '
         'with a well-conditioned rule (eps*sum|w| <= 1e-3)')
